@@ -293,7 +293,10 @@ func LiveMPD(a *asset, mpdName string, cfg *ResponseConfig, drmCfg *drm.DrmConfi
 			if err != nil {
 				return nil, fmt.Errorf("adjustASForSegmentNumber: %w", err)
 			}
-			mpd.PublishTime = mpd.AvailabilityStartTime
+			if asIdx == 0 {
+				// An image adaptation set of a SegmentTimeline MPD also comes here, after the video one
+				mpd.PublishTime = mpd.AvailabilityStartTime
+			}
 		default:
 			return nil, fmt.Errorf("unknown mpd type")
 		}
